@@ -126,7 +126,7 @@ func GenC14Case(seed uint64, idx int) C14Case {
 		}
 		return C14Case{Family: "generic-filter", Op: "exec", Datum: d, Obj: ObjSpec{Kind: "filter", Expr: g.Gen(elem, 1, 2)}}
 	}
-	kind := []string{"json", "tmap:any", "tmap:ptr", "tmap:slice", "tmap:map", "tmap:int", "tmap:inner", "doc", "jsonnum", "tmap:ikey", "tmap:nkey"}[r.Intn(11)]
+	kind := []string{"json", "tmap:any", "tmap:ptr", "tmap:slice", "tmap:map", "tmap:int", "tmap:inner", "doc", "jsonnum", "tmap:ikey", "tmap:nkey", "odd"}[r.Intn(12)]
 	d := DatumSpec{Gen: kind, Seed: r.Uint64() % 100000}
 	root := Build(d)
 	c := C14Case{Family: "generic-quantifier", Op: "eval", Datum: d, Obj: ObjSpec{Kind: "evaluator", Expr: g.GenQuantified(root, 2)}}
